@@ -141,6 +141,14 @@ fn l4(p: &str, v: u8, src: &[u8], dst: &[u8]) -> (u8, Vec<u8>) {
             m.extend_from_slice(&PEER_MAC);
             (58, m)
         }
+        "ns-other" => {
+            // neighbour solicitation sent to our solicited-node group for another station's address in that group
+            let mut m = vec![135u8, 0, 0, 0, 0, 0, 0, 0];
+            m.extend_from_slice(&v6("fd00:9::1"));
+            m.extend_from_slice(&[1, 1]);
+            m.extend_from_slice(&PEER_MAC);
+            (58, m)
+        }
         "mld-query" => {
             // general query, maximum response delay 1 s
             let mut m = vec![130u8, 0, 0, 0, 0x03, 0xe8, 0, 0];
@@ -325,7 +333,7 @@ pub fn replay(args: &Args) {
             let mut d = [0u8; 16];
             s.copy_from_slice(&src);
             d.copy_from_slice(&dst);
-            ipv6_packet(s, d, proto, match pclass { "ns" => 255, "mld-query" => 1, _ => 64 }, &l4b, true)
+            ipv6_packet(s, d, proto, match pclass { "ns" | "ns-other" => 255, "mld-query" => 1, _ => 64 }, &l4b, true)
         };
         if pclass == "igmp-query" {
             ipb[8] = 1; // TTL 1
